@@ -96,8 +96,8 @@ structure TLoc (σ : St) (x : Th) : Prop where
   cr : x.pc = .cr1 →
     x.g ∈ σ.cl x.s ∧ (σ.hs x.g).sender = false ∧ (σ.hs x.g).view = false ∧ newHd (σ.hs x.ng) false ∧
     (σ.hs x.ng).uni = false ∧ (σ.hs x.ng).stream = x.s
-  ds : x.pc = .ds1 → x.g ∈ σ.sl
-  dr : (x.pc = .un1 ∨ x.pc = .dr1) → x.g ∈ σ.cl x.s
+  ds : x.pc = .ds1 → x.g ∈ σ.sl ∧ (σ.hs x.g).alive = false
+  dr : (x.pc = .un1 ∨ x.pc = .dr1) → x.g ∈ σ.cl x.s ∧ (σ.hs x.g).alive = false
   rem : x.pc.remPC = true → σ.cl x.s = [] ∧ σ.est x.s = true
   add : x.pc.addPC = true →
     x.g ∈ σ.cl x.s ∧ (σ.hs x.g).sender = false ∧ σ.cl x.ns = [] ∧ newHd (σ.hs x.ng) false ∧ (σ.hs x.ng).stream = x.ns
